@@ -189,7 +189,7 @@ R["C08"] = {"harnesses": apply_harnesses(extra_quick=[C12_K1, C08_K1_OPTS], extr
     "outside_bound": AP_OUTSIDE}
 
 R["C11"] = {"harnesses": [
-    H("H_DecodePatch", [{"elements": 1, "pad": 1}], [{"elements": 1, "pad": 1}, {"elements": 2, "pad": 0}], ["decode/accepted", "decode/rejected", "decode/end"],
+    H("H_DecodePatch", [{"elements": 1, "pad": 1}], [{"elements": 1, "pad": 1}, {"elements": 2, "pad": 0, "fixed": 0}, {"elements": 2, "pad": 0, "fixed": 1}], ["decode/accepted", "decode/rejected", "decode/end"],
       "patch texts assembled member by member: root kind (array of operations / array with a non-object element / non-array root / empty array), and for each of op, path, from, value: absent, null, string, number, object, array or present under a case-renamed key; optional extra member, optional duplicated path; the op string is one of the six names or 3/4/6 symbolic letters (any case); one symbolic whitespace byte before and after; accessors compared with the generating members"),
     H("H_Bytes_Decode", ns(0, 4), ns(0, 6), ["bytes/decode/malformed", "bytes/decode/wellformed"], "every byte string of n bytes: malformed, non-array roots and non-object elements rejected; the empty array accepted with any whitespace")],
     "anchors": ["v5.DecodePatch", "v5.validateOperation", "v5.validatePatch", "(github.com/evanphx/json-patch/v5.Operation).Kind", "(github.com/evanphx/json-patch/v5.Operation).Path", "(github.com/evanphx/json-patch/v5.Operation).From", "(github.com/evanphx/json-patch/v5.Operation).ValueInterface"],
